@@ -32,7 +32,7 @@ Proof. induction a; simpl; congruence. Qed.
 
 Section FillFacts.
   Variable esc : word -> word.
-  Variables (width c0 c1 : Z) (md : bool).
+  Variables (width c1 : Z) (md : bool).
 
   Lemma chk_cons (first : bool) scol (l : list word) L ws orig rest :
     l <> [] -> ws = orig ++ rest -> length orig = length l ->
@@ -60,20 +60,20 @@ Section FillFacts.
     cur = (if first then curo else esc_head esc md curo) ->
     (scol + llen cur <= width \/ length cur = 1%nat) ->
     chk_lines esc width c1 md first scol
-      (fill esc width c0 c1 md ws cur (scol + llen cur) first) (curo ++ ws) = true.
+      (fill esc width c1 md ws cur (scol + llen cur) first) (curo ++ ws) = true.
   Proof.
     induction ws as [|w ws IH]; intros cur curo scol first Hne Hcur Hw;
       assert (Hlen : length curo = length cur)
         by (subst cur; destruct first; [reflexivity|now rewrite esc_head_length]).
-    - assert (Hf : fill esc width c0 c1 md [] cur (scol + llen cur) first = [cur])
+    - assert (Hf : fill esc width c1 md [] cur (scol + llen cur) first = [cur])
         by (destruct cur; [congruence|reflexivity]).
       rewrite Hf. apply chk_cons with (orig := curo) (rest := []); auto; try exact I.
     - assert (Hneo : curo <> []).
       { intro E. subst curo. destruct cur; [congruence|discriminate]. }
-      assert (Hf : fill esc width c0 c1 md (w :: ws) cur (scol + llen cur) first =
+      assert (Hf : fill esc width c1 md (w :: ws) cur (scol + llen cur) first =
                    if scol + llen cur + wlen w + 1 <=? width
-                   then fill esc width c0 c1 md ws (cur ++ [w]) (scol + llen cur + wlen w + 1) first
-                   else cur :: fill esc width c0 c1 md ws [if md then esc w else w]
+                   then fill esc width c1 md ws (cur ++ [w]) (scol + llen cur + wlen w + 1) first
+                   else cur :: fill esc width c1 md ws [if md then esc w else w]
                                  (c1 + wlen (if md then esc w else w)) false)
         by (destruct cur; [congruence|reflexivity]).
       rewrite Hf. clear Hf.
@@ -96,13 +96,15 @@ Section FillFacts.
         apply IH; [discriminate|reflexivity|now right].
   Qed.
 
-  Theorem wrap_words_ok ws : wrap_ok esc ws width c0 c1 md (wrap_words esc ws width c0 c1 md) = true.
+  Theorem wrap_words_ok ws c0 : wrap_ok esc ws width c0 c1 md (wrap_words esc ws width c0 c1 md) = true.
   Proof.
     unfold wrap_ok, wrap_words. destruct ws as [|w ws]; [reflexivity|].
-    cbn [fill]. rewrite Z.add_0_r. cbn [negb andb]. rewrite andb_false_r.
-    replace (c0 + wlen w) with (c0 + llen [w]) by (now rewrite llen_single).
-    destruct (c0 + llen [w] <=? width);
-      apply (fill_chk ws [w] [w] c0 true); try discriminate; try reflexivity; now right.
+    cbn [fill scol0]. rewrite Z.add_0_r. cbn [negb andb]. rewrite andb_false_r.
+    destruct (c0 + wlen w <=? width) eqn:Efit.
+    - replace (c0 + wlen w) with (c0 + llen [w]) by (now rewrite llen_single).
+      apply (fill_chk ws [w] [w] c0 true); [discriminate|reflexivity|now right].
+    - replace (c1 + wlen w) with (c1 + llen [w]) by (now rewrite llen_single).
+      apply (fill_chk ws [w] [w] c1 true); [discriminate|reflexivity|now right].
   Qed.
 
   (* ---- what the checker means (holds for ANY list of lines it accepts, hence also
@@ -167,7 +169,7 @@ Theorem wrap_lossless esc ws width c0 c1 md :
   exists Lo, concat Lo = ws /\ Forall (fun l => l <> []) Lo /\
              wrap_words esc ws width c0 c1 md = esc_lines esc md true Lo.
 Proof.
-  destruct (chk_sound esc width c1 md _ _ _ _ (wrap_words_ok esc width c0 c1 md ws))
+  destruct (chk_sound esc width c1 md _ _ _ _ (wrap_words_ok esc width c1 md ws c0))
     as [Lo [H1 [H2 [H3 _]]]].
   exists Lo; auto.
 Qed.
@@ -194,15 +196,29 @@ Proof.
   - apply IH.
 Qed.
 
-(* Width bound: line 0 starts at column c0, every later line at c1; a line is wider
-   than the width only if it is a single word. *)
-Theorem wrap_width esc ws width c0 c1 md i l :
+(* Width bound, exact form: line i starts at column scol0 (i = 0) or c1 (i > 0). *)
+Theorem wrap_width_exact esc ws width c0 c1 md i l :
+  nth_error (wrap_words esc ws width c0 c1 md) i = Some l ->
+  col_at c1 (scol0 ws width c0 c1) i + llen l <= width \/ length l = 1%nat.
+Proof.
+  destruct (chk_sound esc width c1 md _ _ _ _ (wrap_words_ok esc width c1 md ws c0))
+    as [Lo [_ [_ [_ [H4 _]]]]].
+  apply H4.
+Qed.
+
+(* Width bound as the property states it (line 0 measured from c0): holds whenever the
+   first word fits at c0 or the first-line column does not exceed the continuation offset. *)
+Theorem wrap_width_partial esc ws width c0 c1 md i l :
+  (c0 <= c1 \/ match ws with w :: _ => c0 + wlen w <= width | [] => True end) ->
   nth_error (wrap_words esc ws width c0 c1 md) i = Some l ->
   col_at c1 c0 i + llen l <= width \/ length l = 1%nat.
 Proof.
-  destruct (chk_sound esc width c1 md _ _ _ _ (wrap_words_ok esc width c0 c1 md ws))
-    as [Lo [_ [_ [_ [H4 _]]]]].
-  apply H4.
+  intros G H. pose proof (wrap_width_exact _ _ _ _ _ _ _ _ H) as E.
+  destruct i; [|exact E]. cbn [col_at] in *.
+  destruct ws as [|w ws]; [exact E|]. cbn [scol0] in E.
+  destruct (c0 + wlen w <=? width) eqn:F; [exact E|].
+  apply Z.leb_gt in F. destruct G as [G|G]; [|lia].
+  destruct E as [E|E]; [left; lia|now right].
 Qed.
 
 (* Maximality: the (unescaped) first word of the next line would not have fit. *)
@@ -211,9 +227,9 @@ Theorem wrap_maximal esc ws width c0 c1 md :
     forall i l h t,
       nth_error (wrap_words esc ws width c0 c1 md) i = Some l ->
       nth_error Lo (S i) = Some (h :: t) ->
-      width < col_at c1 c0 i + llen l + 1 + wlen h.
+      width < col_at c1 (scol0 ws width c0 c1) i + llen l + 1 + wlen h.
 Proof.
-  destruct (chk_sound esc width c1 md _ _ _ _ (wrap_words_ok esc width c0 c1 md ws))
+  destruct (chk_sound esc width c1 md _ _ _ _ (wrap_words_ok esc width c1 md ws c0))
     as [Lo [H1 [H2 [_ [_ H5]]]]].
   exists Lo; auto.
 Qed.
